@@ -1,7 +1,7 @@
 (* Extraction of the executable models. Only the directives of ExtrOcamlBasic are in force:
    bool, option, unit, list, prod, sumbool, sumor as OCaml natives; andb/orb inlined.
    N, positive, nat, Z stay as extracted inductives. *)
-From Spok Require Import Base Lexer Parser Sha256 Hash Graph RunCache RunCacheInst Find Glob App Paths Vars Effects Cst CstWf Layout.
+From Spok Require Import Base Lexer Parser Sha256 Hash Graph RunCache RunCacheInst Find Glob App Paths Vars Effects Cst CstWf Layout Ser.
 Require Extraction.
 Require Import ExtrOcamlBasic.
 Extraction "model.ml" lex parse fmt is_space is_letter is_punct
@@ -11,4 +11,4 @@ Extraction "model.ml" lex parse fmt is_space is_letter is_punct
   find_spokfile expand glob_spec expand_with old_spok_cb invoke
   trim join_builtin expand_vars render_cmd env_lookup cmd_env clean
   clean_fs write_kind may_change
-  render erase cst_wf_b layout.
+  render erase cst_wf_b layout ser_result.
